@@ -25,6 +25,7 @@ import (
 const (
 	c09Colored = slog.Level(40)
 	c09Unknown = slog.Level(77)
+	c09FgOnly  = slog.Level(41) // registered with a foreground colour only
 )
 
 type c09call struct {
@@ -69,6 +70,7 @@ func c09new(caller bool, reentw ...bool) *c09world {
 		slog.AddKnownPathMapping(filepath.Dir(file), "$W")
 	}
 	_ = slog.RegisterLevel(c09Colored, "notice40", slog.RegWithColor(color.FgGreen, color.BgUnderline), slog.RegWithTreatedAsLevel(slog.InfoLevel))
+	_ = slog.RegisterLevel(c09FgOnly, "fgonly41", slog.RegWithColor(color.FgBlue), slog.RegWithTreatedAsLevel(slog.InfoLevel))
 	w := &c09world{rec: &recorder{}, loggers: map[string]*slog.Entry{}}
 	mk := func(name string, l *slog.Entry) {
 		var wr io.Writer = &plainW{name, w.rec}
@@ -144,7 +146,7 @@ func (w *c09world) issue(k c09call) {
 }
 
 func c09calls(thorough bool) (hist, probes []c09call) {
-	sevs := []slog.Level{slog.InfoLevel, slog.ErrorLevel, slog.TraceLevel, c09Colored, c09Unknown}
+	sevs := []slog.Level{slog.InfoLevel, slog.ErrorLevel, slog.TraceLevel, c09Colored, c09Unknown, c09FgOnly}
 	for _, f := range []string{"color", "json", "logfmt"} {
 		for _, s := range sevs {
 			for _, sh := range []string{"plain", "attrs", "rich", "rich-eol", "egroup", "verb", "verb-small", "reent"} {
@@ -295,6 +297,9 @@ func c09run(c *Ctx) {
 				callers = []bool{(hi+pi)%2 == 0}
 				if sv := slog.Level(p.Sev); sv == slog.InfoLevel || sv == slog.TraceLevel {
 					continue
+				}
+				if (hi+pi)%4 >= 2 {
+					continue // quick: every second pair of (history, probe) combinations - both caller settings stay represented
 				}
 			}
 			if len(h) >= 3 {
